@@ -220,6 +220,7 @@ type ThrottleMon struct {
 	Expected func(w *World) int
 	hooked   bool
 	maxSeen  int
+	deferred map[*Req]bool
 }
 
 func (m *ThrottleMon) hook(w *World) {
@@ -241,8 +242,27 @@ func (m *ThrottleMon) hook(w *World) {
 		if n > m.maxSeen {
 			m.maxSeen = n
 		}
+		// A re-check that was deferred because the subscription was busy with
+		// an earlier check is recognised by being the second governed access
+		// request for the same connection and resource.
+		if strings.HasPrefix(r.Subject, "access.") {
+			for _, o := range w.MQ.Requests() {
+				if o != r && o.Seq < r.Seq && o.Subject == r.Subject && m.Governed(o) && parseReq(o.Payload).CID == parseReq(r.Payload).CID && parseReq(o.Payload).Query == parseReq(r.Payload).Query {
+					if m.deferred == nil {
+						m.deferred = map[*Req]bool{}
+					}
+					m.deferred[r] = true
+				}
+			}
+		}
 		if lim := m.Limit * m.Throttles(w); n > lim {
-			w.Fail("C19", "limit-exceeded", "%d governed requests outstanding after %s was published; limit is %d x %d throttle(s)", n, r.CSubject, m.Limit, m.Throttles(w))
+			kind := "limit-exceeded"
+			for _, p := range w.MQ.Pending() {
+				if m.deferred[p] {
+					kind = "limit-exceeded:deferred-reaccess"
+				}
+			}
+			w.Fail("C19", kind, "%d governed requests outstanding after %s was published; limit is %d x %d throttle(s)", n, r.CSubject, m.Limit, m.Throttles(w))
 		}
 	})
 	w.MQ.mu.Unlock()
